@@ -141,6 +141,10 @@ def run(scenario, params, tape, detail=False):
     loop, ncp = rig.loop, rig.ncp
     ncp.preform()  # the NCP has an old network that the write must replace
     ncp.nwk_fc, ncp.aps_fc = 0x0001D001, 0x0002A002  # ... whose frame counters are not zero
+    # firmware boot defaults smaller than what bellows configures: every NCP reset forgets the configuration, so it has to be re-applied
+    # after each of them or the tables the settings go into are too small
+    ncp.config_default[0x1E] = 2  # CONFIG_KEY_TABLE_SIZE
+    ncp.config_default[0x11] = 2  # CONFIG_MAX_END_DEVICE_CHILDREN
     viol, probes = [], {}
 
     def probe(n, k=1):
@@ -171,6 +175,7 @@ def run(scenario, params, tape, detail=False):
     async def main():
         app = await rig.start_app()
         st["eui_before"] = bytes(ncp.eui64)
+        st["ktsize_configured"] = ncp._key_table_size()  # what connect()'s configuration write left the NCP with
         try:
             await app.write_network_info(network_info=ni, node_info=node)
         except Exception as e:
@@ -237,7 +242,10 @@ def run(scenario, params, tape, detail=False):
             if hk != want_h:
                 viol.append(("C14.rt", "hashed_tclk", f"{tag}: hashed TCLK read back as {hk!r}, written {want_h!r}"))
         # link keys (up to the configured table size)
-        cap_n = st["ncp_after_write"]["ktsize"]
+        cap_n = st["ktsize_configured"]
+        if st["ncp_after_write"]["ktsize"] < cap_n:
+            viol.append(("C14.rt", "config-not-reapplied", f"{tag}: the key table had {cap_n} entries after connect(); when the settings were written the NCP was back at "
+                         f"{st['ncp_after_write']['ktsize']} (configuration lost with a reset and not written again)"))
         want_keys = f["keys"][:cap_n]
         if len(f["keys"]) > cap_n:
             probe("link_keys.over_capacity")
